@@ -55,7 +55,7 @@ STUBBED = ["threading.Thread/Lock/Event, queue.Queue (simkit.cthreads, "
            "stand-in"]
 EXPECT_PROBES = ["w1", "w2", "w3", "w4", "w5", "hub_inline", "hub_threaded",
                  "policy_random", "policy_pct", "switch_in_recoco",
-                 "real_pinger"]
+                 "real_pinger", "loop_on_application_thread"]
 
 
 def gen_plan(seed, tier):
@@ -69,7 +69,10 @@ def gen_plan(seed, tier):
          # keep pox.lib.util's own PipePinger (seam at os.pipe/read/write,
          # pre-emption inside its methods) instead of the level-triggered
          # stand-in
-         "real_pinger": r.chance(0.5)}
+         "real_pinger": r.chance(0.5),
+         # Scheduler(startInThread=False) whose run() the application calls
+         # on a thread of its own (scheduler._thread stays None)
+         "app_loop": r.chance(0.25)}
   steps = []
   if w == "w1":
     for i in range(r.randint(2, 3)):
